@@ -68,6 +68,7 @@ def obligations(run, visitors, oid_prefix="trace"):
     bypass_obligations(run, visitors, open(out).read(), wsdir, root, env, oid_prefix)
     if "MarkAndSweepContext" in visitors:
         order_obligation(run, open(out).read(), wsdir, root, env, dump_s)
+        alloc_roots_obligation(run, open(out).read(), wsdir, root, env)
     if "GlobalSlotRecycler" in visitors:
         opscan_obligation(run, open(out).read(), wsdir, root, env)
     for v in visitors:
@@ -149,10 +150,10 @@ def replay(pid, payload, path):
             print("VIOLATION property=%s replay=%s" % (pid, path))
             return 1
         return 0
-    if payload.get("kind") in ("order", "opscan"):
+    if payload.get("kind") in ("order", "opscan", "allocroots"):
         shutil.copy(os.path.join(ws.VERIF, "harness", "arity_replay.rs"), os.path.join(wsdir, "crates", "steel-core", "tests", "verif_arity_replay.rs"))
         p = subprocess.run(["cargo", "test", "--offline", "-p", "steel-core", "--no-default-features", "--features", ws.FEATURES,
-                            "--test", "verif_arity_replay", "--target-dir", os.path.join(root, "tn"), "--", ("opscan_replay" if payload.get("kind") == "opscan" else "order_replay"), "--exact", "--nocapture"],
+                            "--test", "verif_arity_replay", "--target-dir", os.path.join(root, "tn"), "--", {"opscan": "opscan_replay", "allocroots": "alloc_roots_replay"}.get(payload.get("kind"), "order_replay"), "--exact", "--nocapture"],
                            cwd=wsdir, env=dict(os.environ), capture_output=True, text=True)
         m = re.search(r"OBSERVED: (.*)", p.stdout + p.stderr)
         print("observed:", m.group(1) if m else "not reproduced")
@@ -214,6 +215,52 @@ def order_obligation(run, mir_text, wsdir, root, env, dump_s):
     path = os.path.join(d, "order_mark_bits.json")
     json.dump({"property": run.pid, "kind": "order", "what": what, "observed": m.group(1), "how": "./check %s --replay <this file>" % run.pid}, open(path, "w"), indent=1)
     key = "order:marking-without-reset"
+    if run.is_known(key):
+        run.known_hit(key, run.known[(run.pid, key)] + " -- " + m.group(1)[:200])
+        run.ob(oid, "known", nonvacuous=True, **common)
+    else:
+        run.violation(key, "%s; natively: %s" % (what, m.group(1)[:300]), path)
+        run.ob(oid, "fail", note=m.group(1)[:200], **common)
+
+
+def alloc_roots_obligation(run, mir_text, wsdir, root, env):
+    """E3t: the value being stored is a root of the collection its own allocation triggers (p_order.analyse_alloc_roots)"""
+    import p_order
+    oid = "roots:value-being-stored-is-a-root"
+    t0 = time.time()
+    try:
+        r = p_order.analyse_alloc_roots(mir_text)
+    except Exception as ex:
+        run.ob(oid, "inconclusive", reason="extraction failed: %s" % str(ex)[-300:], engine="mir-smt")
+        return
+    common = dict(engine="mir-smt/z3", wall_s=round(time.time() - t0, 1), solver_s=round(r["dt"], 3), solver_checks=1)
+    run.samples.append({"engine": "mir-smt", "query": "exists a collection entry point (a function of values::closed that calls Heap::mark_and_sweep_new) none of whose marking arguments derives from the parameter carrying the value(s) about to be stored",
+                        "entry points": [(s_["function"], s_["stored_param"], s_["marking_args_from_it"]) for s_ in r["sites"]]})
+    run.functions.append("values::closed::Heap::{value_collection, vector_collection, allocate_vector_iter}: the stored value(s) reach the marking call (MIR data flow)")
+    if r["res"] == "error" or len(r["sites"]) < 3:
+        run.ob(oid, "inconclusive", reason="solver error or only %d collection entry points recognised" % len(r["sites"]), **common)
+        return
+    if r["res"] == "unsat":
+        run.ob(oid, "pass", nonvacuous=True, note="%d collection entry points: each hands the value(s) about to be stored to the marker" % len(r["sites"]), **common)
+        return
+    what = "%s starts a full collection without handing the value about to be stored to the marker" % ", ".join(b["function"] for b in r["bad"])
+    try:
+        shutil.copy(os.path.join(ws.VERIF, "harness", "arity_replay.rs"), os.path.join(wsdir, "crates", "steel-core", "tests", "verif_arity_replay.rs"))
+        p = subprocess.run(["cargo", "test", "--offline", "-p", "steel-core", "--no-default-features", "--features", ws.FEATURES,
+                            "--test", "verif_arity_replay", "--target-dir", os.path.join(root, "tn"), "--", "alloc_roots_replay", "--exact", "--nocapture"],
+                           cwd=wsdir, env=env, capture_output=True, text=True, timeout=2400)
+        m = re.search(r"OBSERVED: (.*)", p.stdout + p.stderr)
+    except Exception as ex:
+        run.ob(oid, "inconclusive", reason="replay failed: %s" % str(ex)[-300:], **common)
+        return
+    if not m:
+        run.ob(oid, "inconclusive", reason="solver: %s; not reproduced by the replay program" % what, **common)
+        return
+    d = os.path.join(ws.VERIF, "replays", run.pid)
+    os.makedirs(d, exist_ok=True)
+    path = os.path.join(d, "alloc_roots.json")
+    json.dump({"property": run.pid, "kind": "allocroots", "what": what, "observed": m.group(1), "how": "./check %s --replay <this file>" % run.pid}, open(path, "w"), indent=1)
+    key = "roots:stored-value-not-rooted"
     if run.is_known(key):
         run.known_hit(key, run.known[(run.pid, key)] + " -- " + m.group(1)[:200])
         run.ob(oid, "known", nonvacuous=True, **common)
